@@ -40,7 +40,17 @@ import os
 
 from vlib import env
 
-THEOREMS = []
+THEOREMS = [
+    "cl_physical_balanced", "cl_refused_unchanged", "cl_ok_count", "cl_edge",
+    "cl_write_after_read_refused", "cl_over_unlock_refused",
+    "lf_physical_balanced", "lf_refused_unchanged", "lf_ok_count", "lf_edge",
+    "lf_write_after_read_refused", "lf_over_unlock_refused",
+    "repo_physical_balanced", "repo_refused_unchanged", "repo_ok_count", "repo_edge",
+    "repo_write_after_read_refused", "repo_over_unlock_refused",
+    "branch_physical_balanced", "branch_over_unlock_witness", "branch_write_after_read_refused",
+    "branch_over_unlock_refused_partial", "branch_refused_unchanged_partial", "branch_ok_edge",
+    "branchG_physical_balanced", "branchG_refused_unchanged", "branchG_over_unlock_refused", "branchG_ok_edge",
+]
 RULE = ("all operation sequences over {lock_read, lock_write(None), lock_write(known token), "
         "lock_write(wrong token), unlock} up to a length bound (exhaustive) and random ones up to length 40, "
         "for CountedLock, LockableFiles, PackRepository and the BzrBranch/PackRepository stack, with and "
@@ -417,6 +427,25 @@ def _holders(key, bal):
     return bal[key]
 
 
+_variant = []
+
+
+def branch_variant(subj):
+    """Which BzrBranch.unlock does the working tree implement?  Probed on the real
+    code with the witness of the finding: `unguarded` (unlock of an unlocked branch
+    reaches repository.unlock(): Model Branch.step) or `guarded` (refused first, as
+    GitBranch.unlock does: Model Branch.stepG).  Both variants have their theorems."""
+    if not _variant:
+        subj.fresh(False)
+        r = subj.obj.repository
+        r.lock_read()
+        _call(subj.obj, "u")
+        _variant.append("guarded" if r.is_locked() else "unguarded")
+        if r.is_locked():
+            r.unlock()
+    return _variant[0]
+
+
 def run_sequence(ctx, subj, ext, ops, record=True):
     """drive the real object, evaluate the oracle after every step; returns the
     per-step observation strings (for the comparison with the model)"""
@@ -516,7 +545,10 @@ def run_sequence(ctx, subj, ext, ops, record=True):
         ctx.count("%s:len=%d" % (kind, len(ops)))
         for ob in obs:
             ctx.count("%s:res=%s" % (kind, ob.split("/")[0].split(":")[0] + (":" + ob.split("/")[0].split(":")[1] if ob.startswith("E:") else "")))
-    return case, "%s %s %s" % (kind, "T" if ext else "F", ",".join(ops) or "-"), ";".join(obs) or "-"
+    mkind = kind
+    if kind == "branch" and branch_variant(subj) == "guarded":
+        mkind = "branchG"
+    return case, "%s %s %s" % (mkind, "T" if ext else "F", ",".join(ops) or "-"), ";".join(obs) or "-"
 
 
 # ---------------------------------------------------------------- fake-free working tree stack
@@ -680,6 +712,7 @@ def run(ctx, bounds=None):
         del cases[:], lines[:], outs[:]
     ctx.exhaustive = True
     ctx.extra["exhaustive_lengths"] = bounds
+    ctx.extra["branch_unlock_variant"] = _variant[0] if _variant else None
     tree_stack(ctx, ctx.pick(300, 3000), ctx.pick(12, 25))
 
 
